@@ -142,7 +142,8 @@ pub fn gen_mag(r: &mut Rng) -> f64 {
         if let Some(d) = dict_near(r) { let d = d.abs(); if d >= 1e-100 && d <= 1e100 { return d; } }
     }
     match r.below(20) {
-        0 | 1 => 0.0,
+        // a zero magnitude may carry the sign bit (`scale_rotate(-0.0, …)` produces one): numerically a zero, hence in the domain
+        0 | 1 => if r.chance(1, 8) { -0.0 } else { 0.0 },
         2 | 3 => 1.0,
         4 => *r.pick(&[1e-100, 1e100, 1e-10, 1e10, 2.0, 0.5, 3.0]),
         5 | 6 => 2f64.powi(r.range(-20, 20) as i32),
@@ -181,9 +182,22 @@ pub fn gen_geonum(r: &mut Rng) -> Geonum {
 }
 
 pub fn gen_geonum_pair(r: &mut Rng) -> (Geonum, Geonum) {
+    if r.chance(1, 24) { let g = gen_geonum(r); return (g, g); }   // identical operands: the correspondence borrows one object twice
     let (a, b) = gen_angle_pair(r);
     let (m, n) = gen_mag_pair(r);
     (Geonum::new_with_angle(m, a), Geonum::new_with_angle(n, b))
+}
+
+/// a pair whose dot magnitude `|a||b||cos|` sits on the orthogonality threshold 1e-10, within a few ulps either side
+/// (geonum_mod.rs `is_orthogonal`: `dot.mag.abs() < EPSILON`)
+pub fn gen_dot_threshold_pair(r: &mut Rng) -> (Geonum, Geonum) {
+    let (a0, b0) = gen_geonum_pair(r);
+    let a = Geonum::new_with_angle(if a0.mag == 0.0 || r.chance(1, 2) { log_uniform(r, -3.0, 3.0) } else { a0.mag }, a0.angle);
+    let u = a.dot(&Geonum::new_with_angle(1.0, b0.angle)).mag;
+    if !(u > 0.0) || !u.is_finite() { return (a, b0); }
+    let m = ulps(1e-10 / u, r.range(-6, 6));
+    let b = Geonum::new_with_angle(if m.is_finite() && m >= 1e-100 && m <= 1e100 { m } else { b0.mag }, b0.angle);
+    if r.chance(1, 2) { (a, b) } else { (b, a) }
 }
 
 /// non-zero magnitude in the "physical" range
@@ -439,6 +453,7 @@ fn gen_args_base(name: &str, sig: &str, r: &mut Rng) -> Vec<Val> {
             vec![Val::G(p), Val::G(c), Val::F(gen_pos(r))]
         }
         "geonum.project_to_dimension" => vec![Val::G(gen_geonum(r)), Val::N(gen_blade(r))],
+        "geonum.is_orthogonal" | "geonum.dot" if r.chance(1, 4) => { let (a, b) = gen_dot_threshold_pair(r); vec![Val::G(a), Val::G(b)] }
         "coll.index" => { let l = gen_list(r); let n = l.len(); let i = if r.chance(1, 8) { n + r.below(3) as usize } else { r.below(n.max(1) as u64) as usize }; vec![Val::L(l), Val::N(i)] }
         "coll.truncate" => {
             let l = gen_list(r);
